@@ -2,6 +2,8 @@
 from __future__ import annotations
 
 import copy
+
+import demes
 import math
 from fractions import Fraction
 
@@ -75,6 +77,15 @@ def run(ctx):
                 names = [d.name for d in g.demes]
                 derived.append((f"rename_demes({dict(zip(names, names[1:] + names[:1]))!r})",
                                 lambda: g.rename_demes(dict(zip(names, names[1:] + names[:1])))))
+            # the same model with two neighbouring demes listed in the other order (where the ancestry allows it): same
+            # migrations, another deme order, hence other row / column indices
+            a = g.asdict()
+            for i in range(len(a["demes"]) - 1):
+                if a["demes"][i]["name"] not in a["demes"][i + 1]["ancestors"]:
+                    a2 = copy.deepcopy(a)
+                    a2["demes"][i], a2["demes"][i + 1] = a2["demes"][i + 1], a2["demes"][i]
+                    derived.append((f"<demes {i} and {i + 1} listed in the other order>", lambda a2=a2: demes.Graph.fromdict(a2)))
+                    break
             for expr, make in derived:
                 try:
                     h = make()
@@ -95,6 +106,19 @@ def accepted_mutants(ctx):
     import gen_graphs as G
     import gen_mutations as M
     n = 150 if ctx.tier == "quick" else 3000
+    # fixed documents the library must refuse (ingress above 1 in ONE window of a pair that has a second, low-rate window
+    # listed later / earlier); if it returns a graph, that graph's matrices break the row-sum clause
+    three = [{"name": x, "epochs": [{"start_size": 100, "end_time": 0}]} for x in "ABC"]
+    for order in ((0, 1, 2), (0, 2, 1), (2, 1, 0), (1, 0, 2)):
+        migs = [{"source": "C", "dest": "A", "rate": 0.5}, {"source": "B", "dest": "A", "rate": 0.75, "start_time": 200, "end_time": 100},
+                {"source": "B", "dest": "A", "rate": 0.125, "start_time": 100, "end_time": 0}]
+        d = {"time_units": "generations", "demes": copy.deepcopy(three), "migrations": [migs[i] for i in order]}
+        c = impl.resolve(d)
+        ctx.count(d, True, tags=["must_refuse:ingress_in_one_window", "accepted" if c[0] == "ok" else "rejected"])
+        if c[0] == "ok":
+            mm, ends = c[2].migration_matrices()
+            ctx.violation("migration_matrices of a graph the library returned: " + (pointwise_ok(c[2], mm, ends) or "a row sums to more than one in (200, 100]"),
+                          {"document": d}, python=py_repro(d, "g.migration_matrices()"))
     for _ in range(n):
         m = G.gen_model(ctx.rng, max_demes=5)
         base = G.spell(m, ctx.rng, level=ctx.rng.choice([0, 0.5, 1]))
